@@ -13,7 +13,9 @@ KeyCfgs == {"encField", "encSetter", "signField", "signSetter"}
 \* keytype: an ECDSA key can only be supplied through a setter (the deprecated fields are RSA-only)
 KeyOK(x) == x.keytype = "ec" => x.keycfg \in {"encSetter", "signSetter"}
 
-Redirect == { x \in [binding : {"redirect"}, flow : {"authn", "authnPostBinding", "logoutReq"}, relay : RelayClasses, idpurl : {"noquery", "query"},
+\* flows: authn = BuildAuthURLRedirect; authnPostBinding = BuildAuthURLFromDocument; authURL = BuildAuthURL (builds the
+\* request itself); authRedirect = AuthRedirect (HTTP 302 whose Location is that URL); logoutReq = BuildLogoutURLRedirect
+Redirect == { x \in [binding : {"redirect"}, flow : {"authn", "authnPostBinding", "authURL", "authRedirect", "logoutReq"}, relay : RelayClasses, idpurl : {"noquery", "query"},
                      signReq : BOOLEAN, alg : Algs, keycfg : KeyCfgs, keytype : {"rsa", "ec"}] : KeyOK(x) }
 Post == [binding : {"post"}, flow : {"authn", "authnFromDoc", "logoutReq", "logoutResp"}, relay : RelayClasses, idpurl : {"noquery", "query"},
          signReq : BOOLEAN, alg : {"unset"}, keycfg : {"encField"}, keytype : {"rsa"}]
